@@ -111,10 +111,6 @@ MANIFEST = {
     'design_ref': 'DESIGN.md §4 C03',
     'technique': 'Lean 4 theorems on the pagination model (first content of an empty page is always accepted, by mutual '
                  'induction over all box trees; overflow test monotone), exact document-level correspondence',
-    'text': 'Proved for all documents of the block/paragraph grammar: a box laid out on an empty page always yields a '
-            'fragment (so every non-blank page shows content and the root assertion is unreachable); the overflow '
-            'predicate is monotone in position and antitone in the bottom edge. The geometry of every line and box on '
-            'every page is compared exactly between the model and the real layout.',
-    'note': 'Partial: the line-fits and strict-progress theorems over whole documents are carried by the exact '
-            'correspondence for now; tables, columns and footnote areas are outside the model.',
+    'text': 'Proved for all documents of the block/paragraph grammar: a box laid out on an empty page always yields a fragment; every non-blank page strictly advances the resume position (C03.page_progress) and a blank page is followed by a non-blank one, so the page count is bounded by the content; the overflow predicate is monotone. Geometry of every line and box is compared exactly with the real layout; on the wide grammar the bottom edges of in-flow lines and table rows of real renders are checked by a Lean checker with a soundness theorem.',
+    'note': 'Partial: "every placed line fits unless first on its page" is carried for the model by the exact correspondence and for the wide grammar by sampled trace validation; footnote areas, flex and grid items are not checked geometrically.',
 }
